@@ -188,9 +188,9 @@ CHECKS = {
          'DESIGN.md section 3 C11'),
  'C13': ('model_checking',
          'explicit-state search over assemble-call histories in one process (forked children of a never-assembled parent); probe bytes vs a fresh interpreter process',
-         'Every history of depth <= 2 over 25 assemble actions (thorough: also depth 3 over a 9-action core) (stl programs at two widths, no-stl, werror, a parse failure '
+         'Every history of depth <= 2 over 27 assemble actions (thorough: also depth 3 over a 9-action core) (stl programs at two widths, no-stl, werror, a parse failure '
          'inside nested namespaces, a lexing error, an unknown macro after the cache was filled, recursion overflow with depth 5, depths '
-         '2000 and 4000, programs defining top-level constants, programs behind a 1- or 2-file stl prefix with one to three user files, a 60 000-label program, a warning-raising program at a fixed path with and without warnings-as-errors, a rep-heavy program, the stl under other short names, another user short name, another directory) followed by fourteen '
+         '2000 and 4000, programs defining top-level constants, programs behind a 1- or 2-file stl prefix with one to three user files, a 60 000-label program, a warning-raising program at a fixed path with and without warnings-as-errors, a rep-heavy program, the stl under other short names, another user short name, another directory) followed by fifteen '
          'probe assemblies (different widths, versions, werror, programs using the constants\' names as labels, expressions nested 400 / 700 deep): the .fjm and .fjd bytes of every probe must equal those of a brand-new '
          'interpreter process (two reference processes with different hash seeds and directories must agree as well).',
          'Each history runs in a forked child of a parent that imported flipjump but never assembled. The process-global state key is reported, not used to merge histories.',
